@@ -10,7 +10,7 @@ ALL_SEQ_OPS = {"ctopic", "gtopic", "dtopic", "ltopics", "ltsubs", "csub", "gsub"
 
 # property -> configuration.  seq: (profile, quick cases, thorough cases, max history length)
 PROPS = {
-    "C01": dict(module="Deltio.Props.C01", conc=[("mix", 120, 5000), ("cancel", 60, 2000)], trace_kinds={"post", "publish", "pull", "ack", "modify", "expire", "end"}, seq=[("general", 150, 6000, 40), ("data", 150, 6000, 50)], pure=[],
+    "C01": dict(module="Deltio.Props.C01", p1=True, no_oracle={"namerace"}, conc=[("mix", 120, 5000), ("cancel", 60, 2000), ("namerace", 200, 5000)], trace_kinds={"post", "publish", "pull", "ack", "modify", "expire", "end"}, seq=[("general", 150, 6000, 40), ("data", 150, 6000, 50)], pure=[],
                 relevant={"pub", "pull", "sread", "stats", "sopen"}),
     "C02": dict(module="Deltio.Props.C02", conc=[("mix", 120, 5000)], trace_kinds={"ack"}, seq=[("data", 250, 10000, 50)], pure=["tracker", "ackids"],
                 relevant={"ack", "ssend", "pull", "sread", "stats"}),
@@ -24,13 +24,13 @@ PROPS = {
                 relevant={"pub", "pull", "sread"}),
     "C09": dict(module="Deltio.Props.C09", push=True, conc=[("mix", 60, 3000)], trace_kinds={"publish", "pull"}, seq=[("general", 200, 8000, 40), ("data", 100, 4000, 50)], pure=[],
                 relevant={"pub", "pull", "sread"}),
-    "C10": dict(module="Deltio.Props.C10", conc=[("namerace", 600, 20000)], trace_kinds={"attach", "remove", "delete", "delete.begin", "delete.end"}, seq=[("namespace", 300, 12000, 50)], pure=[],
+    "C10": dict(module="Deltio.Props.C10", p1=True, conc=[("namerace", 600, 20000)], trace_kinds={"attach", "remove", "delete", "delete.begin", "delete.end"}, seq=[("namespace", 300, 12000, 50)], pure=[],
                 relevant={"ctopic", "gtopic", "dtopic", "csub", "gsub", "dsub", "pub", "pull", "ack", "mod", "lsubs", "ltopics", "ltsubs"}),
-    "C11": dict(module="Deltio.Props.C11", conc=[("namerace", 600, 20000), ("delete", 100, 3000)], trace_kinds={"attach", "remove", "delete", "delete.begin", "delete.end"}, seq=[("namespace", 300, 12000, 50), ("general", 100, 4000, 40)], pure=[],
+    "C11": dict(module="Deltio.Props.C11", p1=True, conc=[("namerace", 600, 20000), ("delete", 100, 3000)], trace_kinds={"attach", "remove", "delete", "delete.begin", "delete.end"}, seq=[("namespace", 300, 12000, 50), ("general", 100, 4000, 40)], pure=[],
                 relevant={"dsub", "dtopic", "ltsubs", "wtsubs", "gsub", "lsubs", "wsubs", "stats", "ctopic", "csub", "pub", "pull"}),
     "C13": dict(module="Deltio.Props.C13", trace_kinds={"attach", "remove"}, seq=[("namespace", 250, 10000, 50)], pure=["tokens"],
                 relevant={"ltopics", "lsubs", "ltsubs", "wtopics", "wsubs", "wtsubs"}),
-    "C15": dict(module="Deltio.Props.C15", conc=[("mix", 60, 3000), ("wake", 60, 3000)], trace_kinds={"pull"}, seq=[("batches", 80, 3000, 40), ("data", 100, 4000, 50)], pure=[],
+    "C15": dict(module="Deltio.Props.C15", conc=[("mix", 60, 3000), ("wake", 60, 3000)], trace_kinds={"pull"}, seq=[("batches", 80, 3000, 40), ("data", 100, 4000, 50), ("bigbacklog", 2, 12, 0)], pure=[],
                 relevant={"pull", "sread", "sopen"}),
     "C17": dict(module="Deltio.Props.C17", trace_kinds=set(), seq=[("malformed", 300, 12000, 50)], pure=["names", "tokens", "ext", "ackids"],
                 relevant=ALL_SEQ_OPS),
@@ -42,7 +42,7 @@ PROPS = {
                 relevant={"pull", "sread", "dsub", "ack", "mod", "gsub", "pub"}, trace_kinds={"delete.begin", "delete.end"}),
     "C14": dict(module="Deltio.Props.C14", seq=[("namespace", 80, 3000, 40)], pure=[], conc=[], push=True,
                 relevant={"registry", "csub", "dsub"}, trace_kinds=set()),
-    "C16": dict(module="Deltio.Props.C16", seq=[], pure=[], conc=[("cancel", 600, 20000)],
+    "C16": dict(module="Deltio.Props.C16", p1=True, seq=[], pure=[], conc=[("cancel", 600, 20000)],
                 relevant=ALL_SEQ_OPS, trace_kinds={"attach", "remove", "pull"}),
     "C19": dict(module="Deltio.Props.C19", seq=[], pure=["flow", "flowq"], conc=[], relevant=set(), trace_kinds=set()),
     "C18": dict(module="Deltio.Props.C18", trace_kinds=set(), seq=[("namespace", 60, 2000, 30)], pure=["names"],
@@ -305,6 +305,21 @@ class Check:
                     self.disagree.append(dict(mode="trace", stream="conc/" + profile, ops=[tl], impl=[tl], model=[v], first_diff=0))
                 else:
                     self.unattributed += 1
+        if self.cfg.get("p1"):
+            # slice P1: the life-cycle events of every subscription name must be a run of the
+            # (repaired) create/delete protocol proved in Deltio/Proto/Attach.lean
+            pv, _, _ = run_model("p1", "\n".join(trace) + "\n")
+            seen = set()
+            for tl, v in zip(trace, pv):
+                if v != "ok":
+                    case_no = tl.split()[0] if tl.split() else "?"
+                    if case_no in seen:
+                        continue
+                    seen.add(case_no)
+                    nd += 1
+                    self.p1_fail = getattr(self, "p1_fail", 0) + 1
+                    self.disagree.append(dict(mode="trace", stream="conc/" + profile + "/p1", ops=[tl], impl=[tl], model=[v], first_diff=0))
+            self.p1_events = getattr(self, "p1_events", 0) + sum(1 for tl in trace if (" attach " in tl or " remove " in tl or " new " in tl or "delete." in tl))
         i = 0
         for c in cases:
             n = len(c)
@@ -317,6 +332,8 @@ class Check:
                 self.hist[k] = self.hist.get(k, 0) + 1
             if any(a.startswith(("ok", "msgs")) for l, a in zip(c, ans) if l.split() and l.split()[0] in self.cfg["relevant"]):
                 self.distinct.add(case_hash(c + sd))
+            if profile in self.cfg.get("no_oracle", ()):
+                continue          # this property's oracle is not defined for histories of this profile (trace / slice validation only)
             for sig, msg in oracles.run_seq_oracle(self.prop, c, ans, sd, conc=True):
                 if own_signature(self.prop, sig):
                     self.oracle_fail.append((sig, msg, dict(mode="conc", stream=profile, ops=c, impl=ans, model=[])))
@@ -490,7 +507,13 @@ class Check:
             "samples": self.samples, "traces_validated_against_impl": self.traces, "streams": self.streams_run,
             "op_histogram": dict(sorted(self.hist.items())), "disagreements": len(self.disagree),
             "unattributed_disagreements": self.unattributed, "oracle_failures": len(self.oracle_fail),
+            "disagreement_samples": [dict(stream=d.get("stream"), at=(d.get("ops") or [""])[d.get("first_diff", 0)][:120],
+                                          model=(d.get("model") or [""])[min(d.get("first_diff", 0), max(len(d.get("model") or [""]) - 1, 0))][:120])
+                                     for d in self.disagree[:5]],
         }
+        if self.cfg.get("p1"):
+            cov["slice_p1_refinement"] = {"life_cycle_events_validated": getattr(self, "p1_events", 0),
+                                          "cases_not_a_run_of_the_model": getattr(self, "p1_fail", 0)}
         ev = {"property_id": self.prop, "tier": self.tier, "seed": self.seed, "level": "proof", "coverage": cov,
               "assumptions": ["sequential histories: each request completes before the next is issued (concurrency is covered by the L2 "
                               "slices and trace streams where claimed)", "virtual time via tokio's paused clock"],
